@@ -1058,6 +1058,14 @@ class Value(Term):
         :param want_inline_parens: bool, if True put parens around complex expressions that don't already have a grouper.
         :return: PythonText
         """
+        if (
+            want_inline_parens
+            and isinstance(self.value, (int, float))
+            and (not isinstance(self.value, bool))
+            and (self.value < 0)
+        ):
+            # a negative constant is a unary minus to the Python parser: (-5) ** x is not -5 ** x
+            return PythonText("(" + self.value.__repr__() + ")", is_in_parens=True)
         return PythonText(self.value.__repr__(), is_in_parens=False)
 
     # don't collect -5 as a complex expression
@@ -1375,8 +1383,13 @@ class Expression(Term):
             sub_0 = self.args[0].to_python(want_inline_parens=False)
             if self.inline:
                 if sub_0.is_in_parens:
-                    return PythonText(self.op + str(sub_0), is_in_parens=False)
-                return PythonText(self.op + "(" + str(sub_0) + ")", is_in_parens=False)
+                    result = self.op + str(sub_0)
+                else:
+                    result = self.op + "(" + str(sub_0) + ")"
+                if want_inline_parens:
+                    # a prefix operator binds looser than ** and than a following method call
+                    return PythonText("(" + result + ")", is_in_parens=True)
+                return PythonText(result, is_in_parens=False)
             if self.method:
                 if sub_0.is_in_parens or isinstance(self.args[0], ColumnReference):
                     return PythonText(
